@@ -513,25 +513,93 @@ def c06_accrual(op, impl, model):
             f"the increase in total debt no longer equals the increase in total deposits plus the fees booked: {op[:300]}")
 
 
+def world_rule(pid):
+    """wd.<dep|wd|bor|rep|close> <whole context> amount flag  =>  ok <16 slots x 7> <bank 16> last_update tokens <window 3> | err code:
+    the whole real instruction against the whole-instruction model (Mfi/Model/World.lean). An instruction that goes through
+    where the exact evaluation refuses it for a reason THIS property is about is a failing input of this property; so is a
+    post-state that differs in the component this property is about."""
+    REFUSALS = {
+        "C14": {6080: "while the protocol-wide pause is in force", 6016: "on a paused bank", 6017: "on a reduce-only bank (deposit / borrow)",
+                6084: "on a bank killed by bankruptcy"},
+        "C08": {6042: "for a signer who is not entitled (not the authority / not the group admin of a frozen account / no receivership)",
+                6103: "for the authority of a FROZEN account", 6093: "with an account or a bank of another group",
+                6094: "through a vault that is not the bank's liquidity vault", 6200: "on a bank that is not one of the program's own (integration tag)"},
+        "C16": {6035: "on a disabled account (or a deposit / borrow on an account in receivership)", 6047: "mixing staked-collateral and default-class positions",
+                6010: "opening a 17th position", 6040: "leaving a deposit and a debt in one bank"},
+        "C04": {6009: "although the recomputed initial health of the post-state is negative", 6029: "although an isolated-tier debt is not the account's only debt"},
+        "C17": {6003: "beyond the deposit limit", 6027: "beyond the borrow limit", 6026: "leaving total debt above total deposits"},
+        "C12": {6101: "beyond the configured daily deleverage withdrawal limit"},
+        "C10": {6090: "of zero-weight collateral from an account in receivership", 6057: "from an account in receivership at a non-positive price",
+                6035: "(a deposit / borrow) on an account in receivership"},
+        "C01": {6094: "through a vault that is not the bank's liquidity vault"},
+    }
+    NAMES = {"wd.dep": "deposit", "wd.wd": "withdrawal", "wd.bor": "borrow", "wd.rep": "repayment", "wd.close": "balance closure"}
+    def f(op, impl, model):
+        kind = op.split(" ", 1)[0]
+        if kind not in NAMES:
+            return None
+        args = op.split()
+        ctx = f"now={args[1]} paused={args[5]} account-flags={args[13]} signer={args[126] if len(args) > 126 else '?'} amount={args[-2]} flag={args[-1]}"
+        if impl.startswith("ok") and model.startswith("err"):
+            code = int(model.split()[1])
+            why = REFUSALS.get(pid, {}).get(code)
+            if why:
+                return f"{pid} a {NAMES[kind]} went through {why} (the exact evaluation of the whole instruction answers {code}); {ctx}: {op}"
+            return None
+        i, m = _nums(impl), _nums(model)
+        if not i or not m or len(i) != len(m) or len(i) != 16 * 7 + 16 + 1 + 1 + 3:
+            return None
+        slots_i, slots_m = i[:112], m[:112]
+        bank_i, bank_m = i[112:129], m[112:129]
+        tok_i, tok_m = i[129], m[129]
+        win_i, win_m = i[130:], m[130:]
+        if pid == "C16":
+            keys = [slots_i[k * 7 + 1] for k in range(16) if slots_i[k * 7] == 1]
+            if any(keys[k] < keys[k + 1] for k in range(len(keys) - 1)):
+                return f"C16 after a successful {NAMES[kind]} the active positions are not in descending bank-key order (keys by rank: {keys}); {ctx}: {op}"
+            if len(set(keys)) != len(keys):
+                return f"C16 after a successful {NAMES[kind]} two active positions name one bank (keys by rank: {keys}); {ctx}: {op}"
+            if slots_i != slots_m:
+                return f"C16 a successful {NAMES[kind]} leaves a slot array that differs from the exact evaluation's; {ctx}: {op}"
+        if pid == "C02" and (slots_i != slots_m or bank_i[2:4] != bank_m[2:4]) :
+            # the share ledger: position shares vs bank totals
+            di = [slots_i[k * 7 + 3] for k in range(16)], bank_i[2:4]
+            return f"C02 a successful {NAMES[kind]} books position shares / bank share totals that differ from the exact accounting (totals {bank_i[2:4]} vs {bank_m[2:4]}); {ctx}: {op}"
+        if pid in ("C01", "C03") and slots_i == slots_m and bank_i == bank_m and tok_i != tok_m:
+            worse = (kind in ("wd.dep", "wd.rep") and tok_i < tok_m) or (kind in ("wd.wd", "wd.bor") and tok_i > tok_m)
+            if worse:
+                return f"{pid} a {NAMES[kind]} books exactly what the exact accounting books for {tok_m} tokens but moves {tok_i}; {ctx}: {op}"
+        if pid == "C06" and (bank_i[0:2] != bank_m[0:2] or bank_i[16] != bank_m[16]):
+            return f"C06 a successful {NAMES[kind]} leaves share values / accrual clock {bank_i[0:2]} @ {bank_i[16]} where an accrual to the current time first gives {bank_m[0:2]} @ {bank_m[16]}; {ctx}: {op}"
+        if pid == "C12" and win_i != win_m:
+            return f"C12 a deleverage withdrawal leaves the daily window at {win_i}, the exact metering gives {win_m}; {ctx}: {op}"
+        if pid == "C17" and bank_i[2:4] != bank_m[2:4]:
+            return None
+        return None
+    return f
+
+
 WITNESS = {
-    "C04": [c04_health, emode_dupes("C04"), venue_v4("C04")],
+    "C04": [c04_health, emode_dupes("C04"), venue_v4("C04"), world_rule("C04")],
     "C13": [emode_dupes("C13"), emode_leverage("C13"), accepted_invalid_curve("C13")],
     "C18": [accepted_invalid_curve("C18")],
-    "C12": [accepted_invalid_curve("C12"), bracket_conditions("C12")],
+    "C12": [accepted_invalid_curve("C12"), bracket_conditions("C12"), world_rule("C12")],
     "C05": [c05_health, c05_liq, value_scaling("C05"), c05_conditions, venue_v4("C05")],
     "C07": [c07_health, c07_soc],
     "C09": [c09_health, venue_v4("C09")],
-    "C16": [c16_foc, c16_tags],
-    "C03": [ixf_tokens("C03"), tf_mint("C03"), venue_booking("C03"), wrapper_free_value("C03")],
-    "C17": [c17_limits],
-    "C06": [c06_accrual],
+    "C16": [c16_foc, c16_tags, world_rule("C16")],
+    "C03": [ixf_tokens("C03"), tf_mint("C03"), venue_booking("C03"), wrapper_free_value("C03"), world_rule("C03")],
+    "C17": [c17_limits, world_rule("C17")],
+    "C06": [c06_accrual, world_rule("C06")],
     "C19": [c19_emissions, tf_mint("C19")],
-    "C02": [c02_closebank, venue_booking("C02"), wrapper_free_value("C02")],
+    "C02": [c02_closebank, venue_booking("C02"), wrapper_free_value("C02"), world_rule("C02")],
     "C11": [c11_health],
-    "C10": [bracket_conditions("C10"), c10_health],
+    "C10": [bracket_conditions("C10"), c10_health, world_rule("C10")],
     "C20": [c20_venue_value, c20_fail_closed, venue_booking("C20"), venue_v4("C20")],
-    "C01": [ixf_tokens("C01"), tf_mint("C01"), venue_booking("C01"), wrapper_free_value("C01")],
-}
+    "C01": [ixf_tokens("C01"), tf_mint("C01"), venue_booking("C01"), wrapper_free_value("C01"), world_rule("C01")],
+
+    "C08": [world_rule("C08")],
+    "C14": [world_rule("C14")],}
 
 
 def witnesses(pid, disagreements):
